@@ -36,7 +36,7 @@ class CsrDecWorld(World):
     )
 
     def runs(self, prop, tier):
-        return {"quick": 1200, "thorough": 40000}[tier]
+        return {"quick": 5000, "thorough": 60000}[tier]
 
     # ------------------------------------------------------------------------------------------
     def _gen_tree(self, rng, aw, depth, kind):
